@@ -20,6 +20,7 @@ import (
 	"hash/fnv"
 	"log/slog"
 	"net/netip"
+	"os"
 	"sort"
 	"strings"
 	"time"
@@ -88,6 +89,7 @@ type VerifOutsideNode struct {
 	nb        []byte
 	rejectBuf []byte
 	lhOut     []byte
+	batch     *verifOutsideBatchConn
 }
 
 // VerifOutsideNewNode runs the real Main on the configuration and takes the node over for synchronous driving.
@@ -752,3 +754,52 @@ func (n *VerifOutsideNode) RecvErrorPermits(src netip.AddrPort) (send, accept bo
 
 // InMyNetworks: the underlay source lies inside this node's overlay networks ("double encrypted" refusal).
 func (n *VerifOutsideNode) InMyNetworks(a netip.Addr) bool { return n.f.myVpnNetworksTable.Contains(a) }
+
+// ---- the real receive loop, batch by batch ------------------------------------------------------------------------
+
+// verifOutsideBatchConn stands where the UDP socket stands for Interface.listenOut: its ListenOut hands the two
+// closures listenOut passes (the per-datagram listener and the per-batch flusher) to the harness and parks, so the
+// harness can play a batch-capable backend (recvmmsg): listener for every datagram of a batch, then flush once.
+type verifOutsideBatchConn struct {
+	udp.Conn
+	ready chan struct{}
+	stop  chan struct{}
+	r     udp.EncReader
+	flush func()
+}
+
+func (c *verifOutsideBatchConn) ListenOut(r udp.EncReader, flush func()) error {
+	c.r, c.flush = r, flush
+	close(c.ready)
+	<-c.stop
+	return os.ErrClosed
+}
+
+// StartListenOut starts the REAL Interface.listenOut(0) goroutine on a batch connection wrapped around the node's
+// socket. Afterwards InjectBatch drives listenOut's own listener and flusher (with listenOut's own rxContext).
+func (n *VerifOutsideNode) StartListenOut() {
+	if n.batch != nil {
+		return
+	}
+	bc := &verifOutsideBatchConn{Conn: n.f.outside, ready: make(chan struct{}), stop: make(chan struct{})}
+	n.f.outside = bc
+	go n.f.listenOut(0)
+	<-bc.ready
+	n.batch = bc
+}
+
+// InjectBatch delivers the datagrams as ONE receive batch: listenOut's listener for each, then its flusher once.
+func (n *VerifOutsideNode) InjectBatch(pkts []VerifOutsidePkt) (panicked string) {
+	defer func() {
+		if p := recover(); p != nil {
+			panicked = fmt.Sprint(p)
+		}
+	}()
+	bufs := make([][]byte, len(pkts)) // decrypted in place and borrowed by the tun batcher until the flush
+	for i, p := range pkts {
+		bufs[i] = append(make([]byte, 0, len(p.Data)+64), p.Data...)
+		n.batch.r(p.From, bufs[i])
+	}
+	n.batch.flush()
+	return ""
+}
